@@ -551,7 +551,7 @@ func (db *Database) performFuzzySearch(query string, options SearchOptions) []Se
 		builder.WriteString(cmd.Command)
 		builder.WriteByte(' ')
 		builder.WriteString(cmd.Description)
-		targets[i] = builder.String()
+		targets[i] = sanitizeFuzzyTarget(builder.String())
 	}
 
 	// Perform fuzzy search
@@ -590,6 +590,15 @@ func (db *Database) performFuzzySearch(query string, options SearchOptions) []Se
 	}
 
 	return results
+}
+
+// sanitizeFuzzyTarget replaces NUL characters, which the fuzzy matcher uses
+// internally as its end-of-string marker and cannot handle inside a target.
+func sanitizeFuzzyTarget(s string) string {
+	if strings.IndexByte(s, 0) < 0 {
+		return s
+	}
+	return strings.ReplaceAll(s, "\x00", " ")
 }
 
 // combineAndDeduplicateResults merges exact and fuzzy results, removing duplicates
@@ -661,7 +670,7 @@ func (db *Database) GetSuggestions(query string, maxSuggestions int) []string {
 	// Convert to slice for fuzzy matching
 	words := make([]string, 0, len(wordSet))
 	for word := range wordSet {
-		words = append(words, word)
+		words = append(words, sanitizeFuzzyTarget(word))
 	}
 
 	sort.Strings(words)
